@@ -157,6 +157,7 @@ def main():
     if args.only:
         jobs = [j for j in jobs if args.only in j.key]
 
+    pending_errors = []
     results, twins = {}, {}
     def _validate():
         # model pack validation (translation validation of the stubs; not a deciding step)
@@ -177,12 +178,12 @@ def main():
         mv = mvf.result()
         model_validation = {"ok": mv.returncode == 0, "detail": (mv.stdout.strip().splitlines() or ["no output"])[-1]}
         if mv.returncode != 0:
-            print("HARNESS-ERROR: model pack validation failed:\n" + mv.stdout[-2000:] + mv.stderr[-2000:])
-            return HARNESS_ERROR
+            # not fatal by itself: a violation found below still takes precedence; otherwise the run ends as a harness error
+            pending_errors.append("model pack / seam validation failed: " + (mv.stdout[-1500:] + mv.stderr[-500:]).replace("\n", " | "))
     else:
         model_validation = {"ok": True, "detail": "no CrossHair job in this plan"}
     known = load_known(prop)
-    violations, harness_errors, inconclusive, confirmed = [], [], [], []
+    violations, harness_errors, inconclusive, confirmed = [], list(pending_errors), [], []
     samples, per_harness = [], []
     total_paths = total_queries = 0
     solver_seconds = 0.0
